@@ -803,7 +803,8 @@ int FMesher::DoNonPeriodicBCTriangulation(string PathName)
         if (tristatus != 0)
             return tristatus;
 
-        triHelper.writeTriangulationFiles(PathName);
+        if (!triHelper.writeTriangulationFiles(PathName))
+            return -1;
     }
     problem->clearNotationTags();
 
@@ -903,7 +904,11 @@ int FMesher::DoPeriodicBCTriangulation(string PathName)
         if (tristatus != 0)
             return tristatus;
 
-        triHelper.writeTriangulationFiles(PathName);
+        if (!triHelper.writeTriangulationFiles(PathName))
+        {
+            problem->undo();  problem->unselectAll();
+            return -1;
+        }
     }
 
 #ifdef DEBUG
@@ -2006,7 +2011,8 @@ int FMesher::DoPeriodicBCTriangulation(string PathName)
         if (tristatus != 0)
             return tristatus;
 
-        triHelper.writeTriangulationFiles(PathName);
+        if (!triHelper.writeTriangulationFiles(PathName))
+            return -1;
     }
 
     problem->unselectAll();
